@@ -122,12 +122,23 @@ func VfFullRTSearchValue() {
 	}
 	ans := map[peer.ID]*answer{}
 	var puts []vfSent
+	vissued := 0
+	delivered := map[peer.ID]int{}
+	vAllOut := make(chan struct{})
+	var vmu sync.Mutex
 	snd.reply = func(rctx context.Context, p peer.ID, req *dht_pb.Message) (*dht_pb.Message, error) {
 		switch req.Type {
 		case dht_pb.Message_GET_VALUE:
-			if rctx.Err() != nil {
-				return nil, rctx.Err() // an abandoned request is not answered
+			// every crawled peer is asked at once: answers start when all requests are out
+			vmu.Lock()
+			vissued++
+			if vissued == P {
+				close(vAllOut)
 			}
+			vmu.Unlock()
+			<-vAllOut
+			vmu.Lock()
+			defer vmu.Unlock()
 			a := ans[p]
 			if a == nil {
 				a = &answer{}
@@ -155,7 +166,20 @@ func VfFullRTSearchValue() {
 			}
 			return resp, nil
 		case dht_pb.Message_PUT_VALUE:
+			vmu.Lock()
 			puts = append(puts, vfSent{p, req})
+			vmu.Unlock()
+			// the put takes a moment on the wire and is lost if it is abandoned meanwhile
+			t := time.NewTimer(10 * time.Millisecond)
+			defer t.Stop()
+			select {
+			case <-t.C:
+			case <-rctx.Done():
+				return nil, rctx.Err()
+			}
+			vmu.Lock()
+			delivered[p]++
+			vmu.Unlock()
 			return req, nil
 		}
 		return nil, errors.New("unexpected request")
@@ -188,6 +212,7 @@ func VfFullRTSearchValue() {
 			}
 		}
 	}
+	vfAdvance(time.Second)
 	vfWaitIdle()
 	for i, v := range streamed {
 		vfAssert(val.Validate(key, v) == nil, "fullrt/only-validator-approved-values-are-yielded")
@@ -208,6 +233,15 @@ func VfFullRTSearchValue() {
 	if localKind == 1 {
 		// the local value enters the search first: the final value is at least as good
 		vfAssert(len(streamed) > 0 && streamed[len(streamed)-1][1] >= localRank, "fullrt/final-value-at-least-as-good-as-the-valid-local-value")
+	}
+	if !vfQuorumOne && !viaGet {
+		// every answer was received and validated: its value entered the search
+		for _, p := range ids {
+			if a := ans[p]; a != nil && !a.fails && a.hasRec && a.keyOK && a.flag == 1 {
+				ok := len(streamed) > 0 && streamed[len(streamed)-1][1] >= a.rank
+				vfAssert(ok, "fullrt/final-value-at-least-as-good-as-every-valid-value-of-a-received-answer")
+			}
+		}
 	}
 	if len(streamed) > 0 {
 		// the final value was supplied by somebody
@@ -235,6 +269,7 @@ func VfFullRTSearchValue() {
 				}
 			}
 			vfAssert(n == 1, "fullrt/at-most-one-corrective-put-per-peer")
+			vfAssert(delivered[s.to] == 1, "fullrt/corrective-puts-are-not-abandoned-by-the-search-itself")
 		}
 	} else {
 		vfAssert(len(puts) == 0, "fullrt/no-corrective-put-without-a-value")
